@@ -27,8 +27,26 @@ def _interesting_times():
     return [t for t in ts if 0 <= t < U64]
 
 
-def corpus():
+def extra_builds():
+    """the `bp7` binary: its `dtntime <t>` and `d2u <t>` commands are two more observation points of the conversions (src/main.rs)"""
+    from props import c20
+    return c20.extra_builds()
+
+
+def _cli_time_lines(rng, n):
+    from props import c20
     out = []
+    for _ in range(n):
+        t = rng.choice([2 ** 53 + 1, 2 ** 53 + 3, 2 ** 63 + 1001, 2 ** 63 - 1, 2 ** 63, 2 ** 64 - 946684800001, 9007199254740993, rnd_u64(rng), rnd_u64(rng),
+                        rng.randrange(0, LAST_9999 + 1)])
+        out.append(c20.cli_line(OFFSET_MS + 5, [b"bp7", rng.choice([b"dtntime", b"d2u"]), str(t).encode()]))
+    return out
+
+
+def corpus():
+    from props import c20
+    import vlib
+    out = c20.time_cases() + _cli_time_lines(vlib.Rng(1717), 40)
     for t in _interesting_times():
         out += ["UNIX %d" % t, "TSTR %d" % t, "TSFMT %d %d" % (t, t % 7)]
     out += ["TSFMT 0 18446744073709551615", "NOW %d" % OFFSET_MS, "NOW %d" % (OFFSET_MS + 1), "NOW %d" % (U64 - 1),
@@ -64,6 +82,7 @@ def cases(rng, tier):
             out.append("TSFMT %d %d" % (t, rnd_u64(rng)))
         else:
             out.append("NOW %d" % max(OFFSET_MS, t))
+    out += _cli_time_lines(rng, 60 if tier == "quick" else 3000)
     for _ in range(300 if tier == "quick" else 30000):
         c = max(OFFSET_MS, min(U64 - 5000, rng.choice([rnd_u64(rng), rng.randrange(OFFSET_MS, 2 ** 42)])))
         c -= c % 1000
@@ -86,6 +105,9 @@ def _rfc3339(t):
 
 
 def oracle(line, out, mode):
+    if line.startswith("CLI "):
+        from props import c20
+        return c20.oracle(line, out, mode)
     tok = line.split(" ")
     if out in ("PANIC", "ABORT", "CRASH"):
         return "%s aborts (%s)" % (tok[0], out)
